@@ -278,6 +278,8 @@ impl Property for C12 {
         vec![
             Stratum::random("programs", tier.pick(20_000, 500_000), tier.pick(384, 768)),
             Stratum::exhaustive("polkadot_ids", crate::metadata::polkadot().types.len() as u64),
+            // acyclic chains of 100..400 nested types of one kind: "a value is returned whenever ... no cycle"
+            Stratum::exhaustive("deep_chains", 6 * 5),
         ]
     }
     fn eval(&self, stratum: &str, input: Input, stats: &mut Stats) -> Result<(), Failure> {
@@ -333,6 +335,57 @@ impl Property for C12 {
                         stats.sample("program_id", || json!({"program": text, "id": ty.id}));
                     }
                 }
+                Ok(())
+            }
+            ("deep_chains", Input::Index(i)) => {
+                use crate::program::*;
+                let kind = i % 6;
+                let depth = [100usize, 129, 160, 257, 400][(i / 6) as usize % 5];
+                // a closed type nested `depth` times, or a chain of `depth` struct definitions
+                let mut prog = Program { name_style: 0, defs: vec![], roots: vec![] };
+                if kind == 5 {
+                    for d in 0..depth {
+                        let inner = if d + 1 < depth { Ty::Def(d + 1, vec![]) } else { Ty::Prim(Prim::U8) };
+                        prog.defs.push(Def {
+                            path: vec!["chain".into(), format!("L{d}")],
+                            params: vec![],
+                            docs: vec![],
+                            body: Body::Struct(Fields::Named(vec![
+                                FieldDef { name: Some("next".into()), ty: inner, compact_attr: false, docs: vec![] },
+                                FieldDef { name: Some("tag".into()), ty: Ty::Prim(Prim::Bool), compact_attr: false, docs: vec![] },
+                            ])),
+                            config_inner: None,
+                        });
+                    }
+                    prog.roots.push(Ty::Def(0, vec![]));
+                } else {
+                    let mut t = Ty::Prim(Prim::U16);
+                    for _ in 0..depth {
+                        t = match kind {
+                            0 => Ty::Opt(Box::new(t)),
+                            1 => Ty::Seq(SeqKind::Vec, Box::new(t)),
+                            2 => Ty::Tuple(vec![t]),
+                            3 => Ty::Array(1, Box::new(t)),
+                            _ => Ty::Tuple(vec![Ty::Prim(Prim::Bool), t]),
+                        };
+                    }
+                    prog.roots.push(t);
+                }
+                let low = crate::lower::lower(&prog);
+                let reg = &low.registry;
+                let root = low.root_ids[0];
+                let rch = reach(reg, root);
+                // a chain of sequences doubles the example at every level: same exclusion as in the main search
+                if example_weight(reg, root) > MAX_EXAMPLE_WEIGHT {
+                    stats.count("skipped_oversized_example", 1);
+                    return Ok(());
+                }
+                for seed in [0u64, 1, u64::MAX, mix(&[i, 12])] {
+                    let decoded = || json!({"deep_chain_kind": kind, "depth": depth, "seed": seed});
+                    value_oracle(reg, root, seed, &rch, &decoded)?;
+                }
+                stats.label("deep_chain");
+                stats.nontrivial_distinct_by_construction();
                 Ok(())
             }
             ("polkadot_ids", Input::Index(i)) => {
